@@ -680,6 +680,21 @@ def gen_script(s, r, flavor):
         quadrature_invocation(s, r, rule=r.choice(LOCAL_RULES))
     info = make_invocation(s, r, kind={"fourier": "fourier", "wavelet": "wavelet", "localp": "localp", "sequence": "sequence",
                                        "global": "global"}.get(flavor), allow_zero_out=(flavor == "zero-out"))
+    if flavor == "fourier-aniso":
+        # Fourier grid with several outputs of different anisotropy: -getanisotropy / -refineaniso / -refine with -refout omitted or -1 use ALL outputs
+        info = make_invocation(s, r, kind="fourier", dims=2, outs=r.choice([2, 3]))
+        if not info["accepted"]:
+            return
+        st = s.probe()
+        if st.get("ok") and st["needed"] > 0 and load_values(s, r, st):
+            so, of = sink_opts(s, r, force=True)
+            s.do("getanisotropy", [("gf", "g.tsg"), ("type", r.choice(["iptotal", "level", "ipcurved"]))] + ([("rout", -1)] if r.random() < 0.5 else []) + so, of)
+            s.do(r.choice(["refineaniso", "refine"]), [("gf", "g.tsg"), ("type", r.choice(["iptotal", "iphyperbolic"])), ("ming", r.choice([2, 5]))]
+                 + ([("rout", -1)] if r.random() < 0.5 else []))
+            st = s.probe()
+            if st.get("ok"):
+                query(s, r, st, info["dom"], "getneeded")
+        return
     if flavor == "zero-out":
         s.tags.add("zero-out")
     if not info["accepted"]:
@@ -1167,6 +1182,8 @@ def one_script(idx, seed, tool, drv, runner, replay_obj=None, witness=None, tabl
         flavor = "replay" if idx == "replay" else "corpus"
     else:
         flavor = r.choice(FLAVORS)
+        if isinstance(idx, int) and idx % 40 in (1, 2):
+            flavor = "fourier-aniso"       # always exercised, also in the quick tier
         sc = Script(idx, r, tool, base)
         gen_script(sc, r, flavor)
     nondet = None
